@@ -403,7 +403,7 @@ pub fn execute(sc: &RegScenario, stats: &mut Stats) -> Outcome {
 
     stats.inc("histories");
     let mut prev = obs_r(&t, stats, &mut out, true);
-    let mut original: Option<(Tera, Obs)> = None;
+    let mut original: Option<(Tera, Obs, bool)> = None;
     let mut nontrivial = false;
     let mut shape = Fnv::new();
     let mut failed_ops = 0u64;
@@ -435,7 +435,9 @@ pub fn execute(sc: &RegScenario, stats: &mut Stats) -> Outcome {
                 if original.is_none() {
                     let c = t.clone();
                     let old = std::mem::replace(&mut t, c);
-                    original = Some((old, prev.clone()));
+                    // (observed again at the end exactly as it was observed now: a state with a
+                    // known crash shape is never rendered in-process)
+                    original = Some((old, prev.clone(), renderable));
                     stats.inc("probe_clone_taken");
                 }
                 Ok(Ok(()))
@@ -844,8 +846,8 @@ pub fn execute(sc: &RegScenario, stats: &mut Stats) -> Outcome {
         }
     }
 
-    if let Some((orig, orig_obs)) = original {
-        let o = obs_r(&orig, stats, &mut out, true);
+    if let Some((orig, orig_obs, orig_renderable)) = original {
+        let o = obs_r(&orig, stats, &mut out, orig_renderable);
         stats.inc("obs_compares");
         if let Some(d) = first_diff(&orig_obs, &o) {
             out.violations.push(Violation::new("C10", "clone-shares-state-with-original", d));
